@@ -652,6 +652,109 @@ theorem client_ip_shorthand_matches_source :
     Gen.placeholderShorthands.lookup "{client_ip}" = some "{http.vars.client_ip}" ∧
     clientIPShorthandOf = phClientIP := by decide
 
+/-! ## the PROXY protocol listener wrapper: who may say what the remote address is -/
+
+/-- **a PROXY header is believed only with permission.** If the accepted connection's remote address is
+    anything but the socket's own, then the socket is a unix/fd socket, or the parsed peer address is in
+    no `deny` range and is in an `allow` range or the operator chose fallback USE / REQUIRE. -/
+theorem proxy_claim_needs_permission (N : Net Addr Prefix) (cfg : PPCfg Prefix) (network peer : Bytes)
+    (claim : Option Bytes) (a : Accepted)
+    (h : wrapAccept N cfg network peer claim = some a) (hne : a.remote ≠ peer) :
+    unixOrFd network = true ∨
+    ∃ ip, ppPeerAddr N peer = some ip ∧ cfg.deny.any (fun r => N.contains r ip) = false ∧
+      (cfg.allow.any (fun r => N.contains r ip) = true ∨ cfg.fallback = .use ∨ cfg.fallback = .require) := by
+  unfold wrapAccept connPolicy at h
+  unfold ppPeerAddr
+  by_cases hu : unixOrFd network = true
+  · exact Or.inl hu
+  · right
+    simp only [hu, Bool.false_eq_true, if_false] at h
+    cases hs : splitHostPort peer with
+    | none => simp [hs] at h
+    | some hp =>
+      simp only [hs] at h ⊢
+      cases hp' : N.parseAddr hp.1 with
+      | none => simp [hp'] at h
+      | some ip =>
+        simp only [hp'] at h
+        refine ⟨ip, rfl, ?_⟩
+        cases hd : cfg.deny.any (fun r => N.contains r ip) with
+        | true =>
+          simp only [hd, if_true, Option.some.injEq] at h
+          subst h
+          exfalso; apply hne
+          cases claim <;> rfl
+        | false =>
+          refine ⟨rfl, ?_⟩
+          simp only [hd, Bool.false_eq_true, if_false] at h
+          cases hal : cfg.allow.any (fun r => N.contains r ip) with
+          | true => exact Or.inl rfl
+          | false =>
+            right
+            simp only [hal, Bool.false_eq_true, if_false, Option.some.injEq] at h
+            subst h
+            cases hf : cfg.fallback with
+            | use => exact Or.inl rfl
+            | require => exact Or.inr rfl
+            | ignore => exfalso; apply hne; rw [hf]; cases claim <;> rfl
+            | reject => exfalso; apply hne; rw [hf]; cases claim <;> rfl
+            | skip => exfalso; apply hne; rw [hf]; cases claim <;> rfl
+
+/-- **the default is safe.** With `fallback_policy` left at its default (IGNORE), a TCP peer outside every
+    `allow` range keeps its own address whatever PROXY header it sends; the header is swallowed. -/
+theorem default_policy_ignores_claims (N : Net Addr Prefix) (cfg : PPCfg Prefix) (network peer : Bytes)
+    (claim : Option Bytes) (a : Accepted) (hf : cfg.fallback = .ignore) (hu : unixOrFd network = false)
+    (hal : ∀ ip, ppPeerAddr N peer = some ip → cfg.allow.any (fun r => N.contains r ip) = false)
+    (h : wrapAccept N cfg network peer claim = some a) : a.remote = peer := by
+  by_cases hne : a.remote = peer
+  · exact hne
+  · rcases proxy_claim_needs_permission N cfg network peer claim a h hne with h1 | ⟨ip, hip, _, h2 | h2 | h2⟩
+    · rw [hu] at h1; cases h1
+    · rw [hal ip hip] at h2; cases h2
+    · rw [hf] at h2; cases h2
+    · rw [hf] at h2; cases h2
+
+/-- the policy names: the five documented ones in any letter case, nothing else; absent = IGNORE -/
+theorem fallback_names (name : Bytes) (p : PPolicy) (h : parsePolicy name = some p) :
+    asciiUpper name = (match p with
+      | .ignore => [73, 71, 78, 79, 82, 69] | .use => [85, 83, 69] | .reject => [82, 69, 74, 69, 67, 84]
+      | .require => [82, 69, 81, 85, 73, 82, 69] | .skip => [83, 75, 73, 80]) := by
+  unfold parsePolicy at h
+  split at h
+  · cases h; assumption
+  · split at h
+    · cases h; assumption
+    · split at h
+      · cases h; assumption
+      · split at h
+        · cases h; assumption
+        · split at h
+          · cases h; assumption
+          · cases h
+
+/- FULL statement about `deny`: a peer whose address — zone aside — lies in a `deny` range never gets its
+   PROXY header believed:
+     ∀ N cfg peer host port ip claim a, splitHostPort peer = some (host, port) → N.parseAddr (cutZone host) = some ip →
+       cfg.deny.any (N.contains · ip) → wrapAccept N cfg "tcp" peer claim = some a → a.remote = peer
+   It FAILS on the tree as it is: `denied_peer_never_believed_full_fails` (Witness.lean) — the zone is not cut
+   before the containment tests and no prefix contains a zoned address. -/
+
+/-- **deny wins — partial.** Outside the explicit exclusion "the peer's host carries a zone"
+    (`cutZone host ≠ host`), a peer in a `deny` range never gets its PROXY header believed, and a
+    connection that sends one fails its first read. -/
+theorem denied_peer_never_believed_partial (N : Net Addr Prefix) (cfg : PPCfg Prefix) (network peer : Bytes)
+    (host port : Bytes) (ip : Addr) (claim : Option Bytes) (a : Accepted)
+    (hu : unixOrFd network = false)
+    (hs : splitHostPort peer = some (host, port)) (hz : cutZone host = host)
+    (hp : N.parseAddr (cutZone host) = some ip) (hd : cfg.deny.any (fun r => N.contains r ip) = true)
+    (h : wrapAccept N cfg network peer claim = some a) :
+    a.remote = peer ∧ (claim.isSome → a.readOK = false) := by
+  rw [hz] at hp
+  unfold wrapAccept connPolicy at h
+  simp only [hu, Bool.false_eq_true, if_false, hs, hp, hd, if_true, Option.some.injEq] at h
+  subst h
+  cases claim <;> simp [underPolicy]
+
 /-! ## provision-time reading of range expressions -/
 
 /-- **an invalid range is an error, never a silently different trust set.** Provisioning accepts a list
@@ -812,6 +915,17 @@ example : cookieSecure toyNet exCfg ⟨b!"8.8.8.8:1", false, b!"h", false⟩ exH
 example : provisionAccepts [(b!"10.0.0.0/8", ⟨true, false⟩), (b!"fe80::1%eth0", ⟨false, true⟩)] = true ∧
     provisionAccepts [(b!"10.0.0.0/8", ⟨true, false⟩), (b!"10.0.0.0/33", ⟨false, false⟩)] = false ∧
     rangeAccepted b!"10.0.0.1" ⟨false, true⟩ = true := by decide
+-- PROXY protocol wrapper: an allowed peer's claim is believed, an outsider's is swallowed (default IGNORE),
+-- a denied peer's connection fails; policy names are case-insensitive
+def exPP : PPCfg Bytes := ⟨[b!"10."], [b!"8.8"], .ignore⟩
+example : wrapAccept toyNetZ exPP b!"tcp" b!"10.0.0.1:443" (some b!"6.6.6.6:7777") = some ⟨b!"6.6.6.6:7777", true⟩ ∧
+    wrapAccept toyNetZ exPP b!"tcp" b!"[fe80::1]:1" (some b!"6.6.6.6:7777") = some ⟨b!"[fe80::1]:1", true⟩ ∧
+    wrapAccept toyNetZ exPP b!"tcp" b!"8.8.8.8:53" (some b!"6.6.6.6:7777") = some ⟨b!"8.8.8.8:53", false⟩ ∧
+    wrapAccept toyNetZ exPP b!"tcp" b!"garbage" none = none ∧
+    wrapAccept toyNetZ exPP b!"unix" b!"@" (some b!"6.6.6.6:7777") = some ⟨b!"6.6.6.6:7777", true⟩ := by decide
+example : ppPeerAddr toyNetZ b!"[fe80::1]:1" = some b!"fe80::1" ∧ unixOrFd b!"tcp" = false ∧
+    cutZone b!"fe80::1" = b!"fe80::1" ∧ cutZone b!"fe80::1%eth0" ≠ b!"fe80::1%eth0" := by decide
+example : parsePolicy b!"Require" = some .require ∧ parsePolicy b!"bogus" = none ∧ ppFallback none = some .ignore := by decide
 -- elements_are_per_value
 example : elements [b!"a,b", b!"", b!"c"] = [b!"a", b!"b", b!"", b!"c"] := by decide
 -- trimSpace_never_runs_out_of_fuel: NBSP, EM SPACE and ASCII blanks around an address
